@@ -119,13 +119,41 @@ def run(ctx):
         ctx.check(len(cs) == n_exp and not any(isinstance(getattr(c, "_parent", None), (ast.For, ast.While)) for c in cs), "R08.3", uid, "one Function.create_task per accepted occurrence",
                   msg=f"{uid} contains {len(cs)} Function.create_task call sites", key="one task per occurrence", node=f, rel=uid.split("::")[0])
 
-    ctx.rule("R08.4", "event.fire emits the caller's keyword parameters unchanged (a Context-typed context is taken as the context)", floor=1)
-    f = program.func("function.py::Function.event_fire")
-    fires = [n for n in body_walk(f) if isinstance(n, ast.Call) and (call_name(n) or "").endswith("bus.async_fire")]
-    ok = len(fires) == 1 and norm(fires[0].args[0]) == "event_type" and norm(fires[0].args[1]) == "kwargs" and any(k.arg == "context" for k in fires[0].keywords)
-    dels = [n for n in body_walk(f) if isinstance(n, ast.Delete)]
-    ok = ok and all(norm(d) == "del kwargs['context']" for d in dels) and len(dels) == 1 and "isinstance(kwargs['context'], Context)" in norm(f)
-    ctx.check(ok, "R08.4", "function.py::Function.event_fire", "event data == kwargs", msg="event.fire no longer passes exactly the caller's keyword parameters as event data", key="event.fire data", node=f, rel="function.py")
+    ctx.rule("R08.4", "event.fire emits the caller's keyword parameters unchanged (a Context-typed context is taken as the context)", floor=8)
+    ef_uid = "function.py::Function.event_fire"
+    f = program.func(ef_uid)
+    user_ctx, task_ctx = ObjV("userctx", "Context"), ObjV("taskctx", "Context")
+    for cval, clabel in ((None, "no context parameter"), (user_ctx, "a Context object"), (Const("hallway"), "a string called context"), (Const(None), "context=None")):
+        for has_task_ctx in (True, False):
+            kw = DictV(([(Const("context"), cval)] if cval is not None else []) + [(Const("level"), Const(5))])
+            fired = []
+
+            def fire(i, n, a, k, c, o, fired=fired):
+                fired.append((tuple(a), dict(k)))
+                return [(c, NONE)]
+
+            pol = FlowPolicy(program, may_raise_all=False, cancel=False, globals_={"Context": ClassV("Context")},
+                             summaries={"cls.hass.bus.async_fire": fire, "asyncio.current_task": lambda i, n, a, k, c, o: [(c, Const("T"))]})
+            heap = {"Function.task2context": DictV([(Const("T"), task_ctx)] if has_task_ctx else [])}
+            run_flow(program, ef_uid, pol, args={"cls": ClassV("Function"), "event_type": Const("my_event"), "kwargs": kw}, heap=heap)
+            is_ctx = cval == user_ctx
+            want_data = {"level": Const(5)}
+            if cval is not None and not is_ctx:
+                want_data["context"] = cval
+            want_ctx = user_ctx if is_ctx else (task_ctx if has_task_ctx else NONE)
+            bad = None
+            if len(fired) != 1:
+                bad = f"{len(fired)} events fired"
+            else:
+                a, k = fired[0]
+                data = {kk.v: vv for kk, vv in a[1].items} if len(a) > 1 and isinstance(a[1], DictV) else None
+                if a[:1] != (Const("my_event"),) or data != want_data:
+                    bad = f"event {a[:1]} with data {data}, specified data {want_data}"
+                elif k.get("context", NONE) != want_ctx:
+                    bad = f"event context {k.get('context')!r}, specified {want_ctx!r}"
+            ctx.check(bad is None, "R08.4", ef_uid, f"event.fire with {clabel}, task context {'known' if has_task_ctx else 'unknown'}",
+                      msg=f"event.fire('my_event', level=5, ...) with {clabel}: {bad}: the caller's keyword parameters must arrive unchanged as event data (only a Context-typed `context` is taken as the event's context)",
+                      key=f"event.fire {clabel} {has_task_ctx}", node=f, rel="function.py")
 
     ctx.rule("R08.5", "outward calls made for a script carry the run's context; the run's context is a child of the occurrence's and stored before the body runs", floor=8)
     OUT = ("async_fire", "async_call", "async_set", "async_remove")
@@ -140,10 +168,33 @@ def run(ctx):
                 has_ctx = any(k.arg == "context" for k in n.keywords) or any(k.arg is None and ("hass_args" in norm(k.value) or "context_arg" in norm(k.value)) for k in n.keywords)
                 ctx.check(has_ctx, "R08.5", u.uid, f"`{short(n, 50)}` passes context", msg=f"{u.uid}: `{short(n)}` is made without the run's Home Assistant context: the logbook cannot attribute it to the triggering occurrence",
                           key=f"outward call without context {n.func.attr}", node=n, rel=u.rel)
-    for uid in ("trigger.py::TrigInfo.call_action", "decorator.py::FunctionDecoratorManager.dispatch"):
+    occ = ObjV("occ_ctx", "Context")
+    for uid, selfcls, argname in (("trigger.py::TrigInfo.call_action", "TrigInfo", "func_args"), ("decorator.py::FunctionDecoratorManager.dispatch", "FunctionDecoratorManager", None)):
         f = program.func(uid)
-        ok = "Context(parent_id=" in norm(f) and "['context'].id" in norm(f)
-        ctx.check(ok, "R08.5", uid, "child context created from the occurrence's context", msg=f"{uid} no longer creates Context(parent_id=<occurrence context>.id)", key="child context", node=f, rel=uid.split("::")[0])
+        for cval, clabel in ((occ, "a Context"), (Const("text"), "a non-Context value"), (None, "no context")):
+            made = []
+
+            def new_ctx(i, n, a, k, c, o, made=made):
+                made.append((tuple(a), dict(k)))
+                return [(c, ObjV(f"run_ctx{len(made)}", "Context"))]
+
+            fa = DictV([(Const("trigger_type"), Const("event"))] + ([(Const("context"), cval)] if cval is not None else []))
+            pol = FlowPolicy(program, may_raise_all=False, cancel=False, globals_={"Context": ClassV("Context")},
+                             summaries={"Context": new_ctx, "self.get_decorators": lambda i, n, a, k, c, o: [(c, ListV((), "list"))]})
+            pol.loop_unroll = 2
+            heap = {"occ_ctx.id": Const("OCC-ID"), "self.task_unique": NONE, "self.task_unique_kwargs": NONE, "self.name": Const("file.x.f"), "self.action": ObjV("act", "EvalFunc"),
+                    "act.global_ctx_name": Const("file.x"), "act.name": Const("f"), "self.eval_func": ObjV("act", "EvalFunc"), "data.func_args": fa, "data.trigger": NONE}
+            args = {"self": ObjV("self", selfcls)}
+            if argname:
+                args.update({"notify_type": Const("event"), argname: fa, "run_task": Const(True)})
+            else:
+                args["data"] = ObjV("data", "DispatchData")
+            run_flow(program, uid, pol, args=args, heap=heap)
+            want = {"parent_id": Const("OCC-ID")} if cval == occ else {}
+            ok = len(made) == 1 and made[0][0] == () and made[0][1] == want
+            ctx.check(ok, "R08.5", uid, f"run context for an occurrence carrying {clabel}",
+                      msg=f"{uid}: for an occurrence carrying {clabel} the run's Home Assistant context is created as {[('Context', a, k) for a, k in made]}, specified Context({', '.join(f'{k}={v!r}' for k, v in want.items())}): "
+                      f"the logbook cannot link the run to the triggering occurrence", key=f"child context {clabel}", node=f, rel=uid.split("::")[0])
     for uid, before, after in (("trigger.py::TrigInfo.call_action.do_func_call", "Function.store_hass_context", "ast_ctx.call_func"),
                                ("decorator.py::FunctionDecoratorManager._call", "Function.store_hass_context", "data.call_ast_ctx.call_func")):
         f = program.func(uid)
